@@ -50,19 +50,26 @@ theorem drawAll_eq (en : Engine E) (rc : Nat) (e : E) (maxs : List Nat) :
     congr 1; omega
 
 /-- **(i)** whatever the arguments `max_i` were (in C++ they must be positive: `max = 0` divides by zero and the
-    process does not continue), the counter and the engine after the calls are reproduced by
-    `ForwardToRandCount(number of calls)` from the freshly seeded engine -/
+    process does not continue), the counter and the engine after the calls made since `SetSeed(seed)` are reproduced by
+    `SetSeed(seed); ForwardToRandCount(counter)` — the counter as `GetRandCount` reports it: `SetSeed` resets it
+    (since /repo f49f13c), so nothing that was drawn before `SetSeed` enters -/
 theorem draw_count_sufficient (en : Engine E) (seed : Nat) (maxs : List Nat) :
-    Extracted.FiberSched.ForwardToRandCount en.draw 0 (Extracted.FiberSched.SetSeed en.seed seed).2
-        (drawAll en 0 (Extracted.FiberSched.SetSeed en.seed seed).2 maxs).1
-      = drawAll en 0 (Extracted.FiberSched.SetSeed en.seed seed).2 maxs := by
-  simp only [drawAll_eq, ForwardToRandCount_eq, Nat.zero_add]
+    let r := Extracted.FiberSched.SetSeed en.seed seed
+    Extracted.FiberSched.ForwardToRandCount en.draw r.2.1 r.2.2 (drawAll en r.2.1 r.2.2 maxs).1
+      = drawAll en r.2.1 r.2.2 maxs := by
+  simp only [drawAll_eq, ForwardToRandCount_eq, Extracted.FiberSched.SetSeed, Nat.zero_add]
+
+/-- `SetSeed` overwrites the draw counter and the engine: a run started by `SetSeed(seed); SetInjectorState(c0)` on a fresh
+    scheduler is the same state after **any** prefix of draws in the process (`rc`, `e`, `cnt`: whatever was left behind) -/
+theorem init_after_any_prefix (en : Engine E) (rc : Nat) (e : E) (cnt seed c0 : Nat) :
+    reseed en (leftover rc e cnt : St E F Q) seed c0 = init en seed c0 :=
+  reseed_leftover en rc e cnt seed c0
 
 /-- … and in the scheduler as a whole: in every reachable state the engine is the seeded engine advanced by the draw
-    counter (relative to its value at `SetSeed`), whichever decisions consumed the draws -/
-theorem engine_determined_by_count (en : Engine E) (cfg : Cfg) (seed rc0 c0 : Nat) {s : St E F Q}
-    (h : Reachable en cfg seed rc0 c0 s) : ∃ n, s.rc = rc0 + n ∧ s.eng = en.after n (en.seed seed) :=
-  engAt_reachable en cfg seed rc0 c0 h
+    counter as `GetFaultRandomCount()` reports it, whichever decisions consumed the draws -/
+theorem engine_determined_by_count (en : Engine E) (cfg : Cfg) (seed c0 : Nat) {s : St E F Q}
+    (h : Reachable en cfg seed c0 s) : s.eng = en.after s.rc (en.seed seed) :=
+  engAt_reachable en cfg seed c0 h
 
 /-- every call adds to the counter exactly the number of draws it makes -/
 theorem count_tracks_draws (en : Engine E) (cfg : Cfg) (s : St E F Q) (r : Req F Q) :
@@ -81,34 +88,43 @@ theorem time_shift_invariant (en : Engine E) (cfg : Cfg) (client : Client F Q) (
     run en cfg client n (shift d k s) obs = (shift d k (run en cfg client n s obs).1, (run en cfg client n s obs).2) :=
   run_shift en cfg client d k n s obs
 
-/-- **(ii)** checkpoint / restore.  `s` is any state of a run started by `SetSeed(seed)` (draw counter `rc0`, injector
-    state `c0` at that moment) in which only fiber `f` exists; the recorded pair is
-    `(GetFaultRandomCount() - rc0, GetInjectorState()) = (s.rc - rc0, s.count)`.  `s0` is any state of another
-    scheduler (another process) in which only `f` exists — whatever its virtual time and draw counter are.  Then, for
-    every client program, the run continued from `s0` after `SetSeed(seed); ForwardToFaultRandomCount(s.rc - rc0);
-    SetInjectorState(s.count)` observes exactly what the original run observes from `s`. -/
-theorem restore_continues (en : Engine E) (cfg : Cfg) (seed rc0 c0 : Nat) {s : St E F Q} {f : F}
-    (hr : Reachable en cfg seed rc0 c0 s) (hl : Lone s f)
+/-- **(ii)** checkpoint / restore.  `s` is any state of a run started by `SetSeed(seed); SetInjectorState(c0)` — after any
+    prefix of draws in the recording process (`init_after_any_prefix`) — in which only fiber `f` exists; the recorded pair is
+    exactly what the API reports, `(GetFaultRandomCount(), GetInjectorState()) = (s.rc, s.count)`.  `s0` is any state of
+    another scheduler (another process, whatever it drew before) in which only `f` exists.  Then, for every client
+    program, the run continued from `s0` after `SetSeed(seed); ForwardToFaultRandomCount(s.rc); SetInjectorState(s.count)`
+    observes exactly what the original run observes from `s`, and `GetFaultRandomCount()` shows `s.rc` again.
+    (Before /repo f49f13c `SetSeed` left the counter alone and the theorem needed the offset `s.rc - rc0`: former F3, see
+    the comment below.) -/
+theorem restore_continues (en : Engine E) (cfg : Cfg) (seed c0 : Nat) {s : St E F Q} {f : F}
+    (hr : Reachable en cfg seed c0 s) (hl : Lone s f)
     (s0 : St E F Q) (hl0 : Lone s0 f) (hp : s0.pause = s.pause)
     (client : Client F Q) (n : Nat) (obs : List (Out F)) :
-    (run en cfg client n (restore en s0 seed (s.rc - rc0) s.count) obs).2 = (run en cfg client n s obs).2 :=
-  restore_run en cfg seed rc0 c0 hr hl s0 hl0 hp client n obs
+    (run en cfg client n (restore en s0 seed s.rc s.count) obs).2 = (run en cfg client n s obs).2 ∧
+    (restore en s0 seed s.rc s.count).rc = s.rc :=
+  ⟨restore_run en cfg seed c0 hr hl s0 hl0 hp client n obs, restore_rc en s0 seed s.rc s.count⟩
 
-/-- determinism, for the record: a run is a function of (client program, seed, configuration, initial counters) -/
-theorem run_deterministic (en : Engine E) (cfg : Cfg) (client : Client F Q) (seed rc0 c0 n : Nat) :
-    ∀ r₁ r₂, r₁ = run en cfg client n (init en seed rc0 c0) [] → r₂ = run en cfg client n (init en seed rc0 c0) [] →
+/-- determinism, for the record: a run is a function of (client program, seed, configuration, injector state) -/
+theorem run_deterministic (en : Engine E) (cfg : Cfg) (client : Client F Q) (seed c0 n : Nat) :
+    ∀ r₁ r₂, r₁ = run en cfg client n (init en seed c0) [] → r₂ = run en cfg client n (init en seed c0) [] →
       r₁ = r₂ := by
   intro r₁ r₂ h₁ h₂; rw [h₁, h₂]
 
-/-- an in-process re-run (`SetSeed(seed)` again, injector state reset to `c0`; `sRandCount` keeps counting: `rc0'`)
-    observes what the first run observed -/
-theorem rerun_same_process (en : Engine E) (cfg : Cfg) (client : Client F Q) (seed rc0 rc0' c0 n : Nat) :
-    (run en cfg client n (init en seed rc0' c0 : St E F Q) []).2 = (run en cfg client n (init en seed rc0 c0) []).2 := by
-  have h1 : (init en seed rc0' c0 : St E F Q) = shift 0 rc0' (init en seed 0 c0) := by
-    apply St.ext <;> simp [shift, init]
-  have h2 : (init en seed rc0 c0 : St E F Q) = shift 0 rc0 (init en seed 0 c0) := by
-    apply St.ext <;> simp [shift, init]
-  rw [h1, h2, run_shift, run_shift]
+/-- an in-process re-run (`SetSeed(seed); SetInjectorState(c0)` again on a fresh scheduler) is the *same run* — same
+    observations, same final state, same reported counts — whatever the earlier runs left in the draw counter, the
+    engine and the injector -/
+theorem rerun_same_process (en : Engine E) (cfg : Cfg) (client : Client F Q) (seed c0 n : Nat)
+    (rc rc' : Nat) (e e' : E) (cnt cnt' : Nat) :
+    run en cfg client n (reseed en (leftover rc' e' cnt' : St E F Q) seed c0) [] =
+      run en cfg client n (reseed en (leftover rc e cnt) seed c0) [] := by
+  rw [reseed_leftover, reseed_leftover]
+
+/-! former F3, fixed in /repo f49f13c (`sRandCount = 0;` in `detail::SetSeed`): `SetSeed` did not reset the draw counter while
+    `ForwardToFaultRandomCount(n)` draws `n` *more* numbers, so a `(GetFaultRandomCount(), GetInjectorState())` pair recorded
+    in a process that had drawn numbers before `SetSeed` did not restore in a fresh process.  Minimal program (public API,
+    outside fibers): `SetFaultFrequency(3)`; 20 `InjectFault` decisions; `SetSeed(42); SetInjectorState(0)`; 30 decisions;
+    record the pair; 64 decisions = original; `SetSeed(42); ForwardToFaultRandomCount(count); SetInjectorState(state)`; the
+    next 64 decisions differed (harness lines `c17 pure … F3`, `rec … warm=1`).  The harness keeps both as armed monitors. -/
 
 end
 
@@ -227,13 +243,13 @@ def phase2 : List (Req Nat Nat) :=
    .inject, .inject, .exit, .inject, .inject, .inject, .exit, .failWeak, .inject]
 
 /-- the run of phase 1: switches, two injected yields, no spurious failure -/
-example : (steps cfg1 (init lcg 42 0 0) phase1).2 =
+example : (steps cfg1 (init lcg 42 0) phase1).2 =
     [.resumed 0 none, .unit, .unit, .flag false, .flag false, .flag true, .resumed 0 none, .flag false, .flag false,
      .resumed 0 none, .resumed 1 none, .flag false, .flag true, .resumed 1 none, .resumed 2 none, .flag false,
      .flag false] := by decide +kernel
 
 /-- at the checkpoint only fiber 2 exists; 10 draws were made, the injector counter is 2, virtual time is 60 -/
-def ckpt : St Nat Nat Nat := (steps cfg1 (init lcg 42 0 0) phase1).1
+def ckpt : St Nat Nat Nat := (steps cfg1 (init lcg 42 0) phase1).1
 example : ckpt.rc = 10 ∧ ckpt.count = 2 ∧ ckpt.time = 60 ∧ ckpt.queue = [] ∧ ckpt.sleep = [] ∧ ckpt.cur = some 2 := by
   decide +kernel
 
@@ -246,7 +262,7 @@ example : (steps cfg1 ckpt phase2).2 =
 
 /-- restore in another "process" (other seed until the restore; its root fiber start consumed a draw and a tick):
     the continuation observes exactly the same -/
-def fresh : St Nat Nat Nat := (steps cfg1 (init lcg 1239 0 0) [.spawn 2]).1
+def fresh : St Nat Nat Nat := (steps cfg1 (init lcg 1239 0) [.spawn 2]).1
 example : (fresh.rc, fresh.time, fresh.cur) = (1, 10, some 2) := by decide +kernel
 example : (steps cfg1 (restore lcg fresh 42 ckpt.rc ckpt.count) phase2).2 = (steps cfg1 ckpt phase2).2 := by
   decide +kernel
@@ -258,26 +274,52 @@ example : (steps cfg1 (restore lcg fresh 42 ckpt.rc 0) phase2).2 ≠ (steps cfg1
 
 /-- `run` with a reactive client (yield until six observations were made) -/
 example : (run lcg cfg1 (fun obs => if obs.length < 6 then some (if obs.length = 1 then .spawn 1 else .yield) else none) 20
-    (init lcg 7 0 0 : St Nat Nat Nat) []).2.length = 6 := by decide +kernel
+    (init lcg 7 0 : St Nat Nat Nat) []).2.length = 6 := by decide +kernel
 
 
-/-! places where the C++ code has undefined behaviour (crash defects, not reproducibility defects; the model marks them
-    `Out.ub` instead of inventing a behaviour; see notes/C17.md) -/
+/-! the two scheduler defects that used to be modelled as `Out.ub`, fixed in /repo 33a96a1 — kept as comments:
 
-/-- D12 (`RunLoop` calls `GetNext` on an empty run queue): a timed waiter notified before its deadline and resumed in
-    the tick that crosses the deadline leaves an empty bucket in the sleep map; when every remaining fiber sleeps,
-    `AdvanceTime` does nothing (the stale key is in the past), `WakeUpNeeded` wakes nobody, and `GetNext` →
-    `GetElement` → `nullptr->Erase()`.  Reached by this run (`SetFaultSleepTime(5)`, everything else default). -/
-theorem getnext_on_empty_queue_witness :
-    (steps { sleepTime := 5 } (init lcg 1 0 0)
-      [.spawn 0, .spawn 1, .parkFor 9 15, .notifyOne 9, .sleepFor 1000, .sleepFor 1000]).2 =
-    [.resumed 0 none, .unit, .resumed 1 none, .unit, .resumed 0 (some false), .ub] := by decide +kernel
+    D12 (`RunLoop` called `GetNext` on an empty run queue → `GetElement` → `nullptr->Erase()`): a timed waiter notified
+    before its deadline and resumed in the tick that crosses the deadline left an empty bucket in the sleep map
+    (`SleepPreemptive` cleaned up only `if (_time <= ns)`); when every remaining fiber slept, `AdvanceTime` did nothing (the
+    stale key was in the past), `WakeUpNeeded` woke nobody and `GetNext` polled an empty list.  Exhibited by
+    `SetFaultSleepTime(5)`, `[spawn 0, spawn 1, parkFor 9 15, notifyOne 9, sleepFor 1000, sleepFor 1000]`
+    (former theorem `getnext_on_empty_queue_witness`) and by 2 of 400 random scheduler scripts of harness/c17.cpp.
+    Fix: the bucket is dropped whatever the time is, and `RunLoop` has `if (_queue.Empty()) continue;`.
 
-/-- D8 (`SleepPreemptive` dereferences `_sleep_list.end()`): a timed wait whose jittered deadline equals the current
-    time returns from `Sleep` at once and then looks up a bucket that was never created -/
-theorem sleep_preemptive_end_deref_witness :
-    (steps { sleepTime := 1 } (init lcg 1 0 0) [.spawn 0, .parkFor 9 0]).2 =
-    [.resumed 0 none, .flag true, .ub] := by decide +kernel
+    D8 (`SleepPreemptive` dereferenced `_sleep_list.end()`): a timed wait whose jittered deadline equals the current time
+    returned from `Sleep` at once and then looked up a bucket that was never created.  Exhibited by `SetFaultSleepTime(1)`,
+    `[spawn 0, parkFor 9 0]` (former theorem `sleep_preemptive_end_deref_witness`).  Fix: `it != end() &&`. -/
+
+section
+variable {E F Q : Type} [DecidableEq F] [DecidableEq Q]
+
+/-- the run loop never calls `GetNext` on an empty run queue and never gives up with work pending: in **every** state
+    (reachable or not, stale empty buckets included) one pass of `RunLoop` ends in a resumed fiber or in `idle` -/
+theorem getnext_never_on_empty_queue (en : Engine E) (cfg : Cfg) (s : St E F Q) : Out.ub ∉ (dispatch en cfg s).2 :=
+  dispatch_no_ub en cfg s
+
+/-- the only undefined behaviour left is the client's: a blocking call made outside a fiber -/
+theorem ub_only_outside_fiber (en : Engine E) (cfg : Cfg) (s : St E F Q) (r : Req F Q) (h : s.cur ≠ none) :
+    Out.ub ∉ (step en cfg s r).2 :=
+  step_ub_only_outside en cfg s r h
+
+end
+
+/-- the former D12 script now runs to completion -/
+example : (steps { sleepTime := 5 } (init lcg 1 0)
+      [.spawn 0, .spawn 1, .parkFor 9 15, .notifyOne 9, .sleepFor 1000, .sleepFor 1000, .exit, .exit]).2 =
+    [.resumed 0 none, .unit, .resumed 1 none, .unit, .resumed 0 (some false), .resumed 1 none, .resumed 0 none, .idle] := by
+  decide +kernel
+
+/-- the former D8 script: an immediate timeout, nothing else -/
+example : (steps { sleepTime := 1 } (init lcg 1 0) [.spawn 0, .parkFor 9 0, .exit]).2 =
+    [.resumed 0 none, .flag true, .idle] := by decide +kernel
+
+/-- `if (_queue.Empty()) continue;`: a stale empty bucket in the past, the only sleeper in the future — the loop goes
+    round once (no tick, no draw), `AdvanceTime` then jumps to the real sleeper -/
+example : let d := dispatch lcg {} ({ (init lcg 1 0 : St Nat Nat Nat) with time := 10, sleep := [(5, []), (50, [7])] })
+    (d.2, d.1.time, d.1.sleep, d.1.rc) = ([.resumed 7 none], 60, [], 1) := by decide +kernel
 
 /-! T2: the kernel skeletons the model was written from -/
 
@@ -342,8 +384,7 @@ theorem sources_agree :
     Extracted.FiberSched.source_Scheduler_AdvanceTime = Extracted.Kernels.Sched_AdvanceTime ∧
     Extracted.FiberSched.source_Scheduler_WakeUpNeeded_stop = Extracted.Kernels.Sched_WakeUpNeeded ∧
     Extracted.FiberSched.source_Scheduler_Sleep_skip = Extracted.Kernels.Sched_Sleep ∧
-    Extracted.FiberSched.source_Scheduler_SleepPreemptive_deadline = Extracted.Kernels.Sched_SleepPreemptive ∧
-    Extracted.FiberSched.source_Scheduler_SleepPreemptive_cleanup = Extracted.Kernels.Sched_SleepPreemptive :=
-  ⟨rfl, rfl, rfl, rfl, rfl, rfl, rfl, rfl, rfl, rfl, rfl, rfl, rfl, rfl⟩
+    Extracted.FiberSched.source_Scheduler_SleepPreemptive_deadline = Extracted.Kernels.Sched_SleepPreemptive :=
+  ⟨rfl, rfl, rfl, rfl, rfl, rfl, rfl, rfl, rfl, rfl, rfl, rfl, rfl⟩
 
 end Yaclib.Props.C17
